@@ -29,6 +29,10 @@ pub struct Ctl<'r> {
     pub small: bool,
     /// target size for the size-tunable member (authData / x5c / config); None = random
     pub bulk: Option<usize>,
+    /// GetInfo.algorithms may hold any algorithm identifier (an authenticator can construct
+    /// `KnownPublicKeyCredentialParameters { alg }` freely); off where decode∘encode must be the
+    /// identity, because decoding filters unknown algorithms (C15, C16)
+    pub any_alg: bool,
     idx: usize,
 }
 
@@ -42,6 +46,7 @@ impl<'r> Ctl<'r> {
             common_only: false,
             small: false,
             bulk: None,
+            any_alg: false,
             idx: 0,
         }
     }
@@ -454,7 +459,11 @@ pub fn gen_get_info(c: &mut Ctl) -> (get_info::Response, V) {
         let mut model = Vec::new();
         let mut items = Vec::new();
         for _ in 0..n {
-            let alg = *c.rng.pick(&[-7i32, -8]);
+            let alg = if c.any_alg && c.rng.chance(1, 3) {
+                *c.rng.pick(&[-257i32, -35, -36, -65535, -9, -6, 0, 1, 24, -24, -25, 256, i32::MIN, i32::MAX])
+            } else {
+                *c.rng.pick(&[-7i32, -8])
+            };
             items.push(KnownPublicKeyCredentialParameters { alg });
             model.push(canonical(V::M(vec![
                 (V::text("alg"), V::int(alg as i128)),
